@@ -16,6 +16,47 @@ fn num_lines(text: &str) -> usize {
     n
 }
 
+/// `lir <hex>`: ranges through the conversion layer - for every pair of character boundaries i <= j (texts up to 48 boundaries; a
+/// spread sample beyond that), `from_proto::range` of the two converted positions must be i..j. Prints "ok <pairs>" or the first mismatches.
+pub fn run_ranges(rest: &str) -> String {
+    let text = crate::util::unhex_str(rest.split(' ').next().unwrap_or(""));
+    let li = match std::panic::catch_unwind(|| LineIndex::new(&text)) {
+        Ok(li) => li,
+        Err(_) => return "PANIC LineIndex::new".to_string(),
+    };
+    let li = std::panic::AssertUnwindSafe(li);
+    let mut bounds: Vec<usize> = (0..=text.len()).filter(|o| text.is_char_boundary(*o)).collect();
+    if bounds.len() > 48 {
+        let step = bounds.len() / 48 + 1;
+        bounds = bounds.into_iter().step_by(step).collect();
+    }
+    let mut bad = Vec::new();
+    let mut n = 0;
+    for (a, i) in bounds.iter().enumerate() {
+        for j in &bounds[a..] {
+            n += 1;
+            let r = std::panic::catch_unwind(|| {
+                let s = lsp::to_proto::position(&li, TextSize::from(*i as u32));
+                let e = lsp::to_proto::position(&li, TextSize::from(*j as u32));
+                lsp::from_proto::range(&li, async_lsp::lsp_types::Range::new(s, e))
+            });
+            match r {
+                Ok(tr) if usize::from(tr.start()) == *i && usize::from(tr.end()) == *j => {}
+                Ok(tr) => bad.push(format!("{}..{}->{}..{}", i, j, usize::from(tr.start()), usize::from(tr.end()))),
+                Err(_) => bad.push(format!("{}..{}->PANIC", i, j)),
+            }
+            if bad.len() >= 4 {
+                return format!("bad {}", bad.join(" "));
+            }
+        }
+    }
+    if bad.is_empty() {
+        format!("ok {}", n)
+    } else {
+        format!("bad {}", bad.join(" "))
+    }
+}
+
 pub fn run(rest: &str) -> String {
     let mut it = rest.split(' ');
     let text = crate::util::unhex_str(it.next().unwrap_or(""));
